@@ -7,7 +7,7 @@
    Model.WasmIr      = semantics of that IR fragment on the python target        (tie H)
    Values are ppci's representation: signed ints in [-2^(N-1), 2^(N-1)) ([in_s]). *)
 From PV Require Import Lib.Py Spec.BitsSpec Spec.WasmNumSpec Model.WasmIr Gen.wasm_runtime Gen.wasm_irmap.
-From PV Require Import Proofs.C22_base Proofs.C22_helpers Proofs.C22_mapping Proofs.C22_table.
+From PV Require Import Proofs.C22_base Proofs.C22_helpers Proofs.C22_mapping Proofs.C22_table Proofs.C22_irread.
 Open Scope Z_scope.
 
 (* ---------------------------------------------------------------- runtime helpers (all operands) *)
@@ -121,3 +121,18 @@ Theorem c22_shift_mask_in_ir_refuted :
                      wop_sem_signed o args = Some r /\ ir_run 100 p args = None /\ py_run 100 p args = Ok r.
 Proof. exact shift_count_unmasked_in_ir. Qed.
 Print Assumptions c22_shift_mask_in_ir_refuted.
+
+(* ---------------------------------------------------------------- target-independent IR reading (ir_run) *)
+(* wherever the spec does not trap and shift counts lie in [0, N), the IR reading equals the spec value:
+   the only gap between the IR reading and the spec is the unmasked shift count (theorem above) *)
+Theorem c22_binop_mapping_ir : forall fuel o p args r, (64 < fuel)%nat ->
+  In (o, p) table -> args_ok o args -> shift_defined o args ->
+  wop_sem_signed o args = Some r -> ir_run fuel p args = Some r.
+Proof. exact table_ir_value. Qed.
+Print Assumptions c22_binop_mapping_ir.
+
+(* every shift count outside [0, N) is undefined behaviour of the emitted IR *)
+Theorem c22_shift_count_ir_undefined : forall fuel w b p x y, is_shift b = true -> In (Bin w b, p) table ->
+  in_s (bits w) x -> in_s (bits w) y -> ~ (0 <= y < bits w) -> ir_run fuel p [x; y] = None.
+Proof. exact table_ir_shift_undefined. Qed.
+Print Assumptions c22_shift_count_ir_undefined.
